@@ -66,6 +66,11 @@ type Config struct {
 	// delivered buffer after the message has been recorded (the application
 	// owns the buffer from then on; C15 returns it to its allocator).
 	AfterMessage func(p *[]byte) `json:"-"`
+	// FramesOnly registers only a data-frame callback (Upgrader.OnDataFrame), no
+	// message callback: the endpoint puts the frames it is handed together
+	// itself (type of the frames as nbio reports it, payloads concatenated
+	// until FIN) and records the result as ObsMessage.
+	FramesOnly bool `json:"frames_only,omitempty"`
 }
 
 // ObsKind says what was observed.
@@ -262,7 +267,16 @@ func New(cfg Config) *Endpoint {
 			}
 		}
 	}
-	if cfg.AfterMessage != nil {
+	if cfg.FramesOnly {
+		var cur []byte
+		u.OnDataFrame(func(c *websocket.Conn, mt websocket.MessageType, fin bool, data []byte) {
+			cur = append(cur, data...)
+			if fin {
+				e.Obs = append(e.Obs, Obs{Kind: ObsMessage, Type: int(mt), Data: append([]byte{}, cur...), AfterFail: e.Failed()})
+				cur = nil
+			}
+		})
+	} else if cfg.AfterMessage != nil {
 		u.OnMessagePtr(func(c *websocket.Conn, mt websocket.MessageType, p *[]byte) {
 			var data []byte
 			if p != nil {
